@@ -82,7 +82,8 @@ DropEvents ==
 Drop == DropWith(DropEvents)
 ChildPanic == PanicWith(DropEvents)
 
-Next == EnvNext \/ PollBegin \/ ScanStep \/ ChildAnswer \/ ChildPanic \/ Drop
+Repoll == RepollPanics(DropEvents)        \* assert!(!done) / Completed => panic
+Next == EnvNext \/ PollBegin \/ ScanStep \/ ChildAnswer \/ ChildPanic \/ Drop \/ Repoll
 NextLive == Next \/ \E c \in Ch : OwedWake(c)
 Spec == Init /\ [][Next]_vars
 LiveSpec == Init /\ [][NextLive]_vars
